@@ -219,75 +219,192 @@ theorem quoteSafe_props {c : Char} (h : quoteSafe c = true) : c.toNat < 0x80 ∧
     · simp at h
     all_goals (simp at h)
 
-theorem canon_quoteTok {t : Tok} (h : WfTok t) : ∀ t' ∈ quoteTok t, CanonTok t' := by
+/-- what the lemmas need of a set `f` of characters that quoting leaves alone: ASCII, not the
+escape sign, neither a control character nor the space -/
+structure SafeSet (f : Char → Bool) : Prop where
+  ascii : ∀ {c : Char}, f c = true → c.toNat < 0x80
+  ne_pct : ∀ {c : Char}, f c = true → c ≠ '%'
+  printable : ∀ {c : Char}, f c = true → 0x20 < c.toNat ∧ c.toNat < 0x7f
+
+theorem SafeSet.pct_false {f : Char → Bool} (hf : SafeSet f) : f '%' = false := by
+  cases h : f '%' with
+  | false => rfl
+  | true => exact absurd rfl (hf.ne_pct h)
+
+theorem quoteAlwaysSafe_props {c : Char} (h : quoteAlwaysSafe c = true) :
+    c ≠ '%' ∧ 0x20 < c.toNat ∧ c.toNat < 0x7f := by
+  simp only [quoteAlwaysSafe, isAsciiAlpha, isAsciiDigit, Bool.or_eq_true, decide_eq_true_eq,
+    Char.le_def, UInt32.le_iff_toNat_le] at h
+  have e : c.val.toNat = c.toNat := rfl
+  refine ⟨?_, ?_⟩
+  · rintro rfl
+    rcases h with ((((h | h) | h) | h) | h) | h
+    · rcases h with h | h <;> simp at h
+    · simp at h
+    all_goals (simp at h)
+  · rcases h with ((((h | h) | h) | h) | h) | h
+    · rcases h with h | h <;> (simp at h; omega)
+    · simp at h; omega
+    all_goals (subst h; decide)
+
+theorem quoteSafe_eq_in (c : Char) : quoteSafe c = quoteSafeIn ['/'] c := by
+  simp only [quoteSafe, quoteSafeIn, quoteAlwaysSafe, List.contains_cons, List.contains_nil,
+    Bool.or_false]
+  by_cases h : c = '/'
+  · subst h; decide
+  · simp [h]
+
+/-- `safe` strings whose ASCII characters are printable, not the space and not `%` -/
+def safeStrOk (safe : Str) : Bool :=
+  safe.all fun c => !decide (c.toNat < 0x80) || (decide (0x20 < c.toNat) && decide (c.toNat < 0x7f) && c != '%')
+
+theorem safeSet_in {safe : Str} (h : safeStrOk safe = true) : SafeSet (quoteSafeIn safe) := by
+  have key : ∀ {c : Char}, quoteSafeIn safe c = true → c ≠ '%' ∧ 0x20 < c.toNat ∧ c.toNat < 0x7f := by
+    intro c hc
+    simp only [quoteSafeIn, Bool.or_eq_true, Bool.and_eq_true, decide_eq_true_eq] at hc
+    rcases hc with hc | ⟨hlt, hm⟩
+    · exact quoteAlwaysSafe_props hc
+    · simp only [safeStrOk, List.all_eq_true] at h
+      have := h c (List.contains_iff_mem.1 hm)
+      simp only [Bool.or_eq_true, Bool.not_eq_true', decide_eq_false_iff_not, Bool.and_eq_true,
+        decide_eq_true_eq, bne_iff_ne, ne_eq] at this
+      rcases this with h1 | h1
+      · exact absurd hlt h1
+      · exact ⟨h1.2, h1.1.1, h1.1.2⟩
+  exact ⟨fun hc => by have := (key hc).2; omega, fun hc => (key hc).1, fun hc => (key hc).2⟩
+
+theorem safeSet_quoteSafeQ : SafeSet quoteSafeQ := safeSet_in (by decide)
+
+theorem safeSet_quoteSafe : SafeSet quoteSafe := by
+  have e : quoteSafe = quoteSafeIn ['/'] := funext quoteSafe_eq_in
+  rw [e]; exact safeSet_in (by decide)
+
+/-- the query set is the default one plus `+` -/
+theorem quoteSafeQ_eq (c : Char) : quoteSafeQ c = (quoteSafe c || c == '+') := by
+  rw [quoteSafe_eq_in]
+  simp only [quoteSafeQ, qslSafe, quoteSafeIn, List.contains_cons, List.contains_nil, Bool.or_false]
+  by_cases h : c = '+'
+  · subst h; decide
+  · have h' : (c == '+') = false := by simpa using h
+    simp [h, h']
+
+theorem quoteTok_eq_by (t : Tok) : quoteTok t = quoteTokBy quoteSafe t := by
+  cases t with
+  | raw c => rfl
+  | esc h1 h2 => rfl
+  | stray => simp [quoteTok, quoteTokBy]; decide
+
+theorem quoteToks_eq_by (ts : List Tok) : quoteToks ts = quoteToksBy quoteSafe ts := by
+  have e : quoteTok = quoteTokBy quoteSafe := funext quoteTok_eq_by
+  simp only [quoteToks, quoteToksBy, e]
+
+/-- `safely_quote(s)` is `safely_quote(s, safe="/")` -/
+theorem safelyQuote_eq_by (s : Str) : safelyQuote s = safelyQuoteBy quoteSafe s := by
+  simp only [safelyQuote, safelyQuoteBy, quoteToks_eq_by]
+
+theorem safelyQuote_eq_in (s : Str) : safelyQuote s = safelyQuoteIn ['/'] s := by
+  have e : quoteSafe = quoteSafeIn ['/'] := funext quoteSafe_eq_in
+  rw [safelyQuote_eq_by, e]; rfl
+
+theorem quoteToksBy_append (f : Char → Bool) (a b : List Tok) :
+    quoteToksBy f (a ++ b) = quoteToksBy f a ++ quoteToksBy f b := by simp [quoteToksBy]
+
+theorem quoteToksBy_cons (f : Char → Bool) (t : Tok) (ts : List Tok) :
+    quoteToksBy f (t :: ts) = quoteTokBy f t ++ quoteToksBy f ts := by simp [quoteToksBy]
+
+theorem canon_quoteTokBy {f : Char → Bool} (hf : SafeSet f) {t : Tok} (h : WfTok t) :
+    ∀ t' ∈ quoteTokBy f t, CanonTok t' := by
   cases t with
   | raw c =>
-    simp only [quoteTok]
+    simp only [quoteTokBy]
     split
-    · rename_i hs; intro t' ht'; simp at ht'; subst ht'; exact (quoteSafe_props hs).2
+    · rename_i hs; intro t' ht'; simp at ht'; subst ht'; exact hf.ne_pct hs
     · intro t' ht'
       simp only [List.mem_map] at ht'
       obtain ⟨b, _, rfl⟩ := ht'
       exact canon_escOfByte b
-  | esc h1 h2 => intro t' ht'; simp [quoteTok] at ht'; subst ht'; exact h
-  | stray => intro t' ht'; simp [quoteTok] at ht'; subst ht'; exact ⟨by decide, by decide⟩
+  | esc h1 h2 => intro t' ht'; simp [quoteTokBy] at ht'; subst ht'; exact h
+  | stray =>
+    intro t' ht'; simp [quoteTokBy, hf.pct_false] at ht'; subst ht'; exact ⟨by decide, by decide⟩
+
+theorem canon_quoteToksBy {f : Char → Bool} (hf : SafeSet f) {ts : List Tok} (h : ∀ t ∈ ts, WfTok t) :
+    ∀ t ∈ quoteToksBy f ts, CanonTok t := by
+  intro t ht
+  simp only [quoteToksBy, List.mem_flatMap] at ht
+  obtain ⟨t0, ht0, ht⟩ := ht
+  exact canon_quoteTokBy hf (h t0 ht0) t ht
+
+theorem canon_quoteTok {t : Tok} (h : WfTok t) : ∀ t' ∈ quoteTok t, CanonTok t' := by
+  rw [quoteTok_eq_by]; exact canon_quoteTokBy safeSet_quoteSafe h
 
 theorem canon_quoteToks {ts : List Tok} (h : ∀ t ∈ ts, WfTok t) :
     ∀ t ∈ quoteToks ts, CanonTok t := by
-  intro t ht
-  simp only [quoteToks, List.mem_flatMap] at ht
-  obtain ⟨t0, ht0, ht⟩ := ht
-  exact canon_quoteTok (h t0 ht0) t ht
+  rw [quoteToks_eq_by]; exact canon_quoteToksBy safeSet_quoteSafe h
 
-theorem pct_quoteTok (t : Tok) : pct (quoteTok t) = pctTok t := by
+theorem pct_quoteTokBy (f : Char → Bool) (t : Tok) : pct (quoteTokBy f t) = pctTok t := by
   cases t with
   | raw c =>
-    simp only [quoteTok]
+    simp only [quoteTokBy]
     split
     · simp [pctTok]
     · simp [pct_map_escOfByte, pctTok]
-  | esc h1 h2 => simp [quoteTok]
-  | stray => simp [quoteTok, pctTok]; decide
+  | esc h1 h2 => simp [quoteTokBy]
+  | stray =>
+    simp only [quoteTokBy]
+    split
+    · simp [pct]
+    · simp [pct, pctTok]; decide
 
-theorem pct_quoteToks (ts : List Tok) : pct (quoteToks ts) = pct ts := by
+theorem pct_quoteToksBy (f : Char → Bool) (ts : List Tok) : pct (quoteToksBy f ts) = pct ts := by
   induction ts with
   | nil => rfl
   | cons t ts ih =>
-    have : quoteToks (t :: ts) = quoteTok t ++ quoteToks ts := by simp [quoteToks]
-    rw [this, pct_append, pct_quoteTok, ih, pct_cons]
+    rw [quoteToksBy_cons, pct_append, pct_quoteTokBy, ih, pct_cons]
 
-theorem quoteToks_quoteTok (t : Tok) : quoteToks (quoteTok t) = quoteTok t := by
+theorem pct_quoteTok (t : Tok) : pct (quoteTok t) = pctTok t := by
+  rw [quoteTok_eq_by]; exact pct_quoteTokBy _ t
+
+theorem pct_quoteToks (ts : List Tok) : pct (quoteToks ts) = pct ts := by
+  rw [quoteToks_eq_by]; exact pct_quoteToksBy _ ts
+
+theorem quoteToksBy_quoteTokBy (f : Char → Bool) (t : Tok) :
+    quoteToksBy f (quoteTokBy f t) = quoteTokBy f t := by
   cases t with
   | raw c =>
-    simp only [quoteTok]
+    simp only [quoteTokBy]
     split
-    · rename_i hs; simp [quoteToks, quoteTok, hs]
+    · rename_i hs; simp [quoteToksBy, quoteTokBy, hs]
     · generalize utf8 c = bs
       induction bs with
       | nil => rfl
       | cons b bs ih =>
-        simp only [quoteToks, List.map_cons, List.flatMap_cons] at ih ⊢
-        rw [ih]; simp [escOfByte, quoteTok]
-  | esc h1 h2 => simp [quoteToks, quoteTok]
-  | stray => simp [quoteToks, quoteTok]
+        simp only [quoteToksBy, List.map_cons, List.flatMap_cons] at ih ⊢
+        rw [ih]; simp [escOfByte, quoteTokBy]
+  | esc h1 h2 => simp [quoteToksBy, quoteTokBy]
+  | stray =>
+    cases hp : f '%' <;> simp [quoteToksBy, quoteTokBy, hp]
 
-theorem quoteToks_idem (ts : List Tok) : quoteToks (quoteToks ts) = quoteToks ts := by
+theorem quoteToksBy_idem (f : Char → Bool) (ts : List Tok) :
+    quoteToksBy f (quoteToksBy f ts) = quoteToksBy f ts := by
   induction ts with
   | nil => rfl
   | cons t ts ih =>
-    have h1 : quoteToks (t :: ts) = quoteTok t ++ quoteToks ts := by simp [quoteToks]
-    have h2 : ∀ a b : List Tok, quoteToks (a ++ b) = quoteToks a ++ quoteToks b := by
-      intro a b; simp [quoteToks]
-    rw [h1, h2, quoteToks_quoteTok, ih]
+    rw [quoteToksBy_cons, quoteToksBy_append, quoteToksBy_quoteTokBy, ih]
+
+theorem quoteToks_quoteTok (t : Tok) : quoteToks (quoteTok t) = quoteTok t := by
+  rw [quoteToks_eq_by, quoteTok_eq_by]; exact quoteToksBy_quoteTokBy _ t
+
+theorem quoteToks_idem (ts : List Tok) : quoteToks (quoteToks ts) = quoteToks ts := by
+  simp only [quoteToks_eq_by]; exact quoteToksBy_idem _ ts
 
 /-- characters of a rendered canonical escape or safe raw char are ASCII -/
-theorem ascii_render_quoteTok {t : Tok} (h : WfTok t) :
-    ∀ ch ∈ render (quoteTok t), ch.toNat < 0x80 := by
+theorem ascii_render_quoteTokBy {f : Char → Bool} (hf : SafeSet f) {t : Tok} (h : WfTok t) :
+    ∀ ch ∈ render (quoteTokBy f t), ch.toNat < 0x80 := by
   cases t with
   | raw c =>
-    simp only [quoteTok]
+    simp only [quoteTokBy]
     split
-    · rename_i hs; intro ch hch; simp [renderTok] at hch; subst hch; exact (quoteSafe_props hs).1
+    · rename_i hs; intro ch hch; simp [renderTok] at hch; subst hch; exact hf.ascii hs
     · generalize utf8 c = bs
       induction bs with
       | nil => simp
@@ -304,7 +421,7 @@ theorem ascii_render_quoteTok {t : Tok} (h : WfTok t) :
         · exact ih ch hch
   | esc h1 h2 =>
     intro ch hch
-    simp only [quoteTok, render_cons, renderTok, render_nil, List.append_nil, List.mem_cons,
+    simp only [quoteTokBy, render_cons, renderTok, render_nil, List.append_nil, List.mem_cons,
       List.not_mem_nil, or_false] at hch
     rcases hch with rfl | rfl | rfl
     · decide
@@ -312,9 +429,13 @@ theorem ascii_render_quoteTok {t : Tok} (h : WfTok t) :
     · exact (isHexDigit_props h.2).1
   | stray =>
     intro ch hch
-    simp only [quoteTok, render_cons, renderTok, render_nil, List.append_nil, List.mem_cons,
-      List.not_mem_nil, or_false] at hch
+    simp only [quoteTokBy, hf.pct_false, Bool.false_eq_true, if_false, render_cons, renderTok,
+      render_nil, List.append_nil, List.mem_cons, List.not_mem_nil, or_false] at hch
     rcases hch with rfl | rfl | rfl <;> decide
+
+theorem ascii_render_quoteTok {t : Tok} (h : WfTok t) :
+    ∀ ch ∈ render (quoteTok t), ch.toNat < 0x80 := by
+  rw [quoteTok_eq_by]; exact ascii_render_quoteTokBy safeSet_quoteSafe h
 
 /-! ### segmentation of decoded bytes -/
 
